@@ -137,8 +137,10 @@ func formTokenMatcher(delims []string) *regexp.Regexp {
 		exclusion = append(exclusion, regexp.QuoteMeta(string(runes[:idx]))+fmt.Sprintf(`[^\x{%x}]`, val))
 	}
 
+	// The arguments are optional, and the alternative without them is tried first: the hyphen of a
+	// right trim marker after a tag name ("{% else -%}") is then not taken for an argument.
 	tokenMatcher := regexp.MustCompile(
-		fmt.Sprintf(`(?s)%s-?\s*(.+?)\s*-?%s|%s-?\s*(\w+)(?:\s+((?:%v)+?))?\s*-?%s`,
+		fmt.Sprintf(`(?s)%s-?\s*(.+?)\s*-?%s|%s-?\s*(\w+)(?:\s+((?:%v)+?))??\s*-?%s`,
 			// QuoteMeta will escape any of these that are regex commands
 			regexp.QuoteMeta(delims[0]), regexp.QuoteMeta(delims[1]),
 			regexp.QuoteMeta(delims[2]), strings.Join(exclusion, "|"), regexp.QuoteMeta(delims[3]),
